@@ -20,8 +20,8 @@ theorem erase_setDist (s : ObjsF δ) (i : Nat) (d : Basic δ) :
   simp only [upd]
   split <;> rfl
 
-theorem erase_setVar (s : ObjsF δ) (k : Nat) (v : Variate δ) :
-    ObjsF.erase { s with var := upd s.var k (some v) } = { s.erase with var := upd s.erase.var k (some v.distribution.dist) } := by
+theorem erase_setVar (s : ObjsF δ) (k : Nat) (v : Variate δ × Bool) :
+    ObjsF.erase { s with var := upd s.var k (some v) } = { s.erase with var := upd s.erase.var k (some (v.1.distribution.dist, v.2)) } := by
   unfold ObjsF.erase
   congr 1
   funext n
@@ -29,9 +29,9 @@ theorem erase_setVar (s : ObjsF δ) (k : Nat) (v : Variate δ) :
   split <;> rfl
 
 theorem erase_dist (s : ObjsF δ) (i : Nat) : s.erase.dist i = (s.dist i).map (·.dist) := rfl
-theorem erase_var (s : ObjsF δ) (k : Nat) : s.erase.var k = (s.var k).map (·.distribution.dist) := rfl
+theorem erase_var (s : ObjsF δ) (k : Nat) : s.erase.var k = (s.var k).map (fun v => (v.1.distribution.dist, v.2)) := rfl
 
-theorem stepF_erase (D : StdDist β δ) (out : δ → String) (ty : Ty) (G : Gen γ) (a : Act β) (s : ObjsF δ) (g : γ) :
+theorem stepF_erase (D : StdDist β δ) (out : δ → String) (ty : Ty) (G : Gen γ) (a : Act β) (s : ObjsF δ) (g : γ × γ) :
     (stepF D out ty (basicPseudo G) a s g).map (fun r => (r.1, r.2.1.erase, r.2.2)) =
       (stepS D out G a s.erase g).map (fun r => (r.1.map (Ev.map (decorate ty)), r.2.1, r.2.2)) := by
   cases a with
@@ -43,7 +43,7 @@ theorem stepF_erase (D : StdDist β δ) (out : δ → String) (ty : Ty) (G : Gen
   | swap i j =>
     simp only [stepF, stepS, erase_dist]
     cases hj : s.dist j <;> cases hi : s.dist i <;> simp [Except.map, ObjsF.erase, map_upd]
-  | draw i =>
+  | draw i w =>
     simp only [stepF, stepS, erase_dist]
     cases hi : s.dist i <;> simp [Except.map, erase_setDist, Basic.draw, Basic.makeResult, Ev.map, basicPseudo]
   | reset i =>
@@ -58,20 +58,20 @@ theorem stepF_erase (D : StdDist β δ) (out : δ → String) (ty : Ty) (G : Gen
   | look i =>
     simp only [stepF, stepS, erase_dist]
     cases hi : s.dist i <;> simp [Except.map, Basic.min, Basic.max, Basic.makeResult, Ev.map]
-  | varD k i =>
+  | varD k i w =>
     simp only [stepF, stepS, erase_dist]
     cases hi : s.dist i <;> simp [Except.map, erase_setVar, Variate.ctor]
-  | varP k p => simp [stepF, stepS, Except.map, erase_setVar, Variate.ctorParam, Basic.ctor, Param2.convertFrom]
+  | varP k p w => simp [stepF, stepS, Except.map, erase_setVar, Variate.ctorParam, Basic.ctor, Param2.convertFrom]
   | varCopy k l assign =>
     simp only [stepF, stepS, erase_var]
     cases hl : s.var l <;> cases hk : s.var k <;> cases assign <;> simp [Except.map, erase_setVar]
   | vdraw k =>
     simp only [stepF, stepS, erase_var]
     cases hk : s.var k <;> simp [Except.map, erase_setVar, Variate.draw, Basic.draw, Basic.makeResult, Ev.map, basicPseudo]
-  | raw => simp [stepF, stepS, Except.map, Ev.map, basicPseudo]
+  | raw w => simp [stepF, stepS, Except.map, Ev.map, basicPseudo]
 
 theorem runScriptF_erase (D : StdDist β δ) (out : δ → String) (ty : Ty) (G : Gen γ) :
-    ∀ (acts : List (Act β)) (s : ObjsF δ) (g : γ),
+    ∀ (acts : List (Act β)) (s : ObjsF δ) (g : γ × γ),
       (runScriptF D out ty (basicPseudo G) acts s g).map (fun r => (r.1, r.2.1.erase, r.2.2)) =
         (runScriptS D out G acts s.erase g).map (fun r => (r.1.map (Ev.map (decorate ty)), r.2.1, r.2.2)) := by
   intro acts
@@ -131,9 +131,8 @@ theorem ObjsF.erase_inj (s t : ObjsF δ) (h : s.erase = t.erase) : s = t := by
         have := congrFun h2 n
         cases hs : sv n <;> cases ht : tv n <;> simp_all
         rename_i a b
-        cases a with
-        | mk ad =>
-          cases b with
-          | mk bd => cases ad; cases bd; simp_all
+        obtain ⟨⟨⟨ad⟩⟩, aw⟩ := a
+        obtain ⟨⟨⟨bd⟩⟩, bw⟩ := b
+        simp_all
 
 end Fcppt.C20
